@@ -603,9 +603,18 @@ class SegmentationImage:
             An array mapping the original label numbers to the new label
             numbers.
         """
-        # child_labels are the deblended labels
+        # child_labels are the deblended labels; a child that was
+        # removed maps to zero and children that were merged map to the
+        # same label
+        deblend_label_map = {}
         for parent_label, child_labels in self._deblend_label_map.items():
-            self._deblend_label_map[parent_label] = relabel_map[child_labels]
+            new_labels = relabel_map[child_labels]
+            _, idx = np.unique(new_labels, return_index=True)
+            new_labels = new_labels[np.sort(idx)]  # keep the order
+            new_labels = new_labels[new_labels != 0]
+            if len(new_labels) > 0:
+                deblend_label_map[parent_label] = new_labels
+        self._deblend_label_map = deblend_label_map
 
     def reassign_label(self, label, new_label, relabel=False):
         """
